@@ -28,6 +28,7 @@ def showRet : Ret → String
 def parseCall (s : String) : Option Call :=
   match s.splitOn ":" with
   | ["send", d] => do pure (.msgSend (← hexOr d))
+  | ["sendp", d] => do pure (.msgSend (← hexOr d) true)
   | ["raw", k, d] => do pure (.rawWrite (BitVec.ofNat 8 (← k.toNat?)) (← hexOr d))
   | ["flush"] => some .rawFlush
   | ["recv"] => some (.msgRecv {})
@@ -87,6 +88,7 @@ def doAction (r : Run) (a : String) : Option Run :=
   | ["w", "ok"] => do pure { r with st := ← envStep r.st (.release none) }
   | ["w", tag] => do pure { r with st := ← envStep r.st (.release (some (← tag.toNat?))) }
   | ["u", t] => do pure { r with st := ← envStep r.st (.unmarshalDone (← t.toNat?)) }
+  | ["m", t] => do pure { r with st := ← envStep r.st (.marshalDone (← t.toNat?)) }
   | ["auto", b] => some { r with auto := b == "1" }
   | _ => none
 
